@@ -3,7 +3,8 @@
 Obligations are enumerated on every run: every public C function named *_free
 (plus the internal ascon_masked_state_free / ascon_trng_free), every C++
 destructor and clear() of the ascon:: classes that is emitted by the library's
-C++ units or by the generated instantiation witness.  For the object type of
+C++ units (header-inline destructors that no library unit emits are not
+separate obligations; they forward to the C *_free functions).  For the object type of
 each obligation, every leaf member that can hold run-time data must be wiped
 on every path (must-pass analysis with callee summaries), at -O0 and in the
 shipped -O3 IR.
